@@ -308,5 +308,19 @@ def _repo_id():
         return {}
 
 
+def _main_with_scratch():
+    # every scratch file of a run (workbooks written by C06 / C09, outputs of translations) lives in one directory
+    # that the parent removes at the end: forked pool workers leave through os._exit and never run their atexit hooks
+    import shutil
+    import tempfile
+    scratch = tempfile.mkdtemp(prefix='verif-run-')
+    tempfile.tempdir = scratch
+    os.environ['TMPDIR'] = scratch
+    try:
+        return main()
+    finally:
+        shutil.rmtree(scratch, ignore_errors=True)
+
+
 if __name__ == '__main__':
-    sys.exit(main())
+    sys.exit(_main_with_scratch())
